@@ -65,6 +65,8 @@ def _declare_func(op: llvm.FuncOp, llvm_module: ir.Module):
         ret_type, arg_types, var_arg=op.function_type.is_variadic
     )
     fn = ir.Function(llvm_module, func_type, name=op.sym_name.data)
+    if op.CConv.cconv_name != "ccc":
+        fn.calling_convention = op.CConv.cconv_name
 
     if op.arg_attrs is None:
         return
